@@ -216,6 +216,16 @@ class Interp:
                     raise ShapeUnsupported("! of a non-Boolean")
                 return ("b", not v[1])
             raise ShapeUnsupported("unary %s" % op)
+        if k == "binop" and n.get("op") in ("&&", "||"):
+            l = self.load(self.eval(u, n["l"], env, this))
+            if l[0] != "b":
+                raise ShapeUnsupported("operand of %s is not a Boolean over hooks" % n["op"])
+            if (n["op"] == "&&") != l[1]:
+                return l            # short circuit
+            r = self.load(self.eval(u, n["r"], env, this))
+            if r[0] != "b":
+                raise ShapeUnsupported("operand of %s is not a Boolean over hooks" % n["op"])
+            return r
         if k == "binop" and n.get("op") in ("==", "!="):
             l = self.load(self.eval(u, n["l"], env, this))
             r = self.load(self.eval(u, n["r"], env, this))
